@@ -274,7 +274,7 @@ def run_one(entry, budget, verbose=False):
         envv['VERIF_REPLAY_DIR'] = os.path.join(tmp, 'replays')
         r = subprocess.run([os.path.join(VERIF, 'check'), prop, '--tier', 'quick'], capture_output=True, text=True, env=envv, timeout=1200)
         lines = [l for l in r.stdout.splitlines() if l.startswith('VIOLATION') or l.startswith('  clause') or l.startswith('HARNESS')]
-        if r.returncode == 1:
+        if r.returncode == 1 and any(l.startswith('VIOLATION') for l in lines):
             return 'CAUGHT', '\n'.join(lines[:4])
         if r.returncode == 0:
             return 'MISSED', r.stdout[-300:]
